@@ -124,6 +124,20 @@ def time_transforms(ck):
                      f'attenuated_signal_test({pat!r}; {extra})')
             both('speed_test', lambda s: ([data_input('lon', pat), data_input('lat', 'p' * n), time_input('tinp', t10(n, s))], dict(suspect_threshold=Fr(1), fail_threshold=Fr(2))),
                  f'speed_test(lon:{pat!r})')
+    # sub-second timestamps with non-integral spacing, shifted by a fraction of a second
+    frac = lambda n, s: [Fr(401, 4) + s + Fr(3, 2) * i for i in range(n)]
+    for sh in (Fr(1, 4), Fr(1, 2), 86400 + Fr(1, 2)):
+        for n in (3, 4):
+            pat = 'p' * n
+            for test, mk in (
+                ('speed_test', lambda s: ([data_input('lon', pat), data_input('lat', pat), time_input('tinp', frac(n, s))], dict(suspect_threshold=Fr(1), fail_threshold=Fr(2)))),
+                ('rate_of_change_test', lambda s: ([data_input('inp', pat), time_input('tinp', frac(n, s))], dict(threshold=Fr(1)))),
+                ('flat_line_test', lambda s: ([data_input('inp', pat), time_input('tinp', frac(n, s))], dict(suspect_threshold=3, fail_threshold=5, tolerance=Fr(1)))),
+                ('attenuated_signal_test', lambda s: ([data_input('inp', pat), time_input('tinp', frac(n, s))], dict(suspect_threshold=Fr(2), fail_threshold=Fr(1), test_period=4, check_type='range'))),
+            ):
+                ca = Case(test, *mk(0), label=f'{test}(n={n}; 1.5 s sampling from xx.25 s)', meta={'class': 'invariance'})
+                cb = Case(test, *mk(sh), label=f'{test}(n={n}; 1.5 s sampling) after time-shift {sh} s', meta={'class': 'invariance'})
+                equal_flags(ck, 'C17.time-shift', f'{fn_key(ca)}:sub-second-time-shift', ca.label, run_case(ck, ca), cb.label, run_case(ck, cb), f'{test}: sub-second time shift')
     # climatology (absolute span shifted too) and time-valued valid_range
     from ..models_pd import TS
     for pat in ('ppp', 'pmp'):
